@@ -93,6 +93,10 @@ def step (line : String) : String :=
       let r := actAll env (.settled init) acts
       showA r.1 ++ " " ++ showOuts r.2
     | _, _ => "bad-op"
+  | ["pyv6", h] =>
+    match hexOr h with
+    | some ad => showBytes (String.ofList (textV6Py ad)).toUTF8.toList
+    | none => "bad-op"
   | ["host", a, h] =>
     match a.toNat?, hexOr h with
     | some a, some ad => if a < 256 then showBytes (String.ofList (hostText (UInt8.ofNat a) ad)).toUTF8.toList else "bad-op"
